@@ -178,8 +178,26 @@ def run(ctx):
     rs = {const_value(c.args[0]) for c in calls_in(fc) if call_attr(c) in ("get", "get_bytes", "_get_rio") and c.args}
     ctx.check("persistence-file", f"{WT}:InventoryWorkingTree.set_conflicts/conflicts", ws == rs == {"conflicts"} and any(call_attr(c) == "to_stanzas" for c in calls_in(fs)) and any(call_attr(c) == "from_stanzas" for c in calls_in(fc)), f"conflicts are written {sorted(map(str, ws))} and read {sorted(map(str, rs))} under the same name, through to_stanzas/from_stanzas")
 
+    # every call of set_conflicts / set_merge_modified rewrites the control file: Conflict.__eq__ compares fewer
+    # fields than are persisted (see compared-attrs-persisted), so no "unchanged" shortcut can be exact
+    for meth, fname in (("set_conflicts", "conflicts"), ("set_merge_modified", "merge-hashes")):
+        gs = build_cfg(repo.func(WT, f"InventoryWorkingTree.{meth}"))
+        wr = [i for i in calling(gs, attr={"_put_rio", "put_file", "put_bytes"}) if any(c.args and const_value(c.args[0]) == fname for c in gs.nodes[i].calls())]
+        ctx.require(bool(wr), f"{WT}:InventoryWorkingTree.{meth}: write of {fname!r} not found")
+        r = gs.without_exc_edges().reach([gs.entry], avoid=set(wr), include_src=True)
+        ctx.check("persistence-unconditional", f"{WT}:InventoryWorkingTree.{meth}", gs.exit not in r, f"{meth}() cannot return normally without having written {fname!r}", message=f"{meth}() has a path that returns without writing {fname!r}: a list that differs only in fields the in-memory comparison ignores (e.g. conflict_path) is not persisted", witness=gs.show_path(gs.without_exc_edges().path([gs.entry], [gs.exit], avoid=set(wr))) if gs.exit in r else None)
+    # ---- selection in resolve(): only `paths is None` means "all" --------------------------------------
+    CG = "breezy/conflicts.py"
+    gr = build_cfg(repo.func(CG, "resolve"))
+    alls = [n.id for n in gr.nodes if n.kind == "stmt" and isinstance(n.ast, ast.Assign) and norm(n.ast.targets[0]) == "to_process" and norm(n.ast.value) == "tree_conflicts"]
+    sel = calling(gr, attr="select_conflicts")
+    ctx.require(bool(alls) and bool(sel), f"{CG}:resolve: the all/selected branches were not found")
+    ctx.check("selection-respected", f"{CG}:resolve", not (set(alls) & gr.assume({"paths is None": False, "paths is not None": True}).reachable_from_entry()), "every conflict is processed only when paths is None; any list — also an empty one — goes through select_conflicts", message="resolve() treats a non-None selection (e.g. the empty list) as 'all conflicts': resolving nothing resolves everything and removes the helper files")
+    ctx.check("selection-respected", f"{CG}:resolve", all(any(norm(a) == "paths" for c in gr.nodes[i].calls() if call_attr(c) == "select_conflicts" for a in c.args) for i in sel), "select_conflicts receives the caller's paths")
 
 MUTANTS = [
+    Mutant("empty selection means all", "breezy/conflicts.py", "        if paths is None:\n            new_conflicts = []", "        if not paths:\n            new_conflicts = []", expect="selection-respected"),
+    Mutant("set_conflicts skips the write when the list compares equal", WT, "        with self.lock_tree_write():\n            self._put_rio(\"conflicts\", conflict_list.to_stanzas(), CONFLICT_HEADER_1)", "        with self.lock_tree_write():\n            if self._transport.has(\"conflicts\") and conflict_list == self.conflicts():\n                return\n            self._put_rio(\"conflicts\", conflict_list.to_stanzas(), CONFLICT_HEADER_1)", expect="persistence-unconditional"),
     Mutant("action no longer written", CF, "        s = Conflict.as_stanza(self)\n        s.add(\"action\", self.action)\n        return s", "        s = Conflict.as_stanza(self)\n        return s", expect=["required-are-written", "compared-attrs-persisted"]),
     Mutant("__init__ parameter renamed", CF, "    def __init__(self, path, conflict_path=None, file_id=None):", "    def __init__(self, path, other_path=None, file_id=None):", expect="keys-are-parameters"),
     Mutant("one class unregistered", CF, "    ParentLoop,\n    UnversionedParent,", "    UnversionedParent,", expect="registry-exhaustive"),
